@@ -152,3 +152,21 @@ pub struct C05ProofLiteral;
 /// let _ = VerifyAction::VerifyOnly;
 /// ```
 pub struct C18NullRngPrivate;
+
+/// C20: the secret-owning types are not `Copy` (a bit-copy would escape the wiping `Drop`).
+/// ```compile_fail,E0277
+/// use tari_bulletproofs_plus::{commitment_opening::CommitmentOpening, extended_mask::ExtendedMask, range_witness::RangeWitness};
+/// fn needs_copy<T: Copy>() {}
+/// needs_copy::<CommitmentOpening>();
+/// needs_copy::<RangeWitness>();
+/// needs_copy::<ExtendedMask>();
+/// ```
+/// Compiling twin:
+/// ```no_run
+/// use tari_bulletproofs_plus::{commitment_opening::CommitmentOpening, extended_mask::ExtendedMask, range_witness::RangeWitness};
+/// fn needs_zod<T: zeroize::ZeroizeOnDrop>() {}
+/// needs_zod::<CommitmentOpening>();
+/// needs_zod::<RangeWitness>();
+/// needs_zod::<ExtendedMask>();
+/// ```
+pub struct C20NotCopy;
